@@ -588,7 +588,9 @@ pub fn run(ctx: &Ctx, id: &str) -> i32 {
             let variant = rng.below(1 << 20);
             let code = eod_codes[k % eod_codes.len()];
             let cleanup_for = move |i: usize| -> Cleanup {
-                if id == "C07" {
+                // C07: plain clean-ups for the enumerated histories of even index, varied ones otherwise (what an
+                // earlier clean-up left behind must not show in later token decisions)
+                if id == "C07" && k % 2 == 0 {
                     return Cleanup::plain();
                 }
                 let v = variant.wrapping_add(i as u64 * 7919);
